@@ -19,9 +19,10 @@ ones that collide with numbers handed out earlier, gaps, 2^32, 2^64-1), creation
 lifetime 0, fragments, administrative payloads, dtn / ipn / none EIDs (a few with '?' '#'), payload block not
 last / not numbered 1 (rare), duplicate block numbers (rare), own source (rare).
 
-Process state: the numbers [_fix_blk_num] hands to the inserted blocks stick to scapy's class-level
-overloaded_fields dict for the life of the process; a "fresh process" is obtained by deleting that key from every
-Packet subclass's table before a case (a no-op on a tree where nothing sticks).
+Process state: forwarding must not depend on what the process forwarded before (on the original tree the number
+given to an inserted block stuck to scapy's class-level overloaded_fields dict; fixed by ed76b97).  Histories are
+therefore fed to ONE agent, and each case starts from a "fresh process": that key is deleted from every Packet
+subclass's table before a case (a no-op on a tree where nothing sticks), so that cases do not influence each other.
 '''
 import env  # noqa: F401  (first)
 env.shim_oscrypto()
@@ -385,6 +386,33 @@ def _loads_one(data):
         return None
 
 
+def good_prev(blk):
+    ''' received block data is one CBOR item that is an RFC 9171 EID '''
+    one = _loads_one(bytes.fromhex(blk['data']))
+    try:
+        return one is not None and bg.eid_of_item(one[0]) is not None
+    except ValueError:
+        return False
+
+
+def good_age(blk):
+    one = _loads_one(bytes.fromhex(blk['data']))
+    return one is not None and _uint(one[0])
+
+
+def survivors_signature(rx_typed, tx_typed, good, junk_sig):
+    ''' Which class a surplus of typed blocks belongs to: received blocks of that type found again (same number
+    and data) among the transmitted ones are "survivors"; if all of them are blocks whose data is not what RFC 9171
+    defines for the type, it is the does-not-dissect class; if a well-formed one survived, the every-second-one class. '''
+    survivors = [blk for blk in rx_typed
+                 if any(tx['num'] == blk['num'] and bytes(tx['data']).hex() == blk['data'] for tx in tx_typed)]
+    if not survivors or len(tx_typed) > len(survivors) + 1:
+        return None
+    if all(not good(blk) for blk in survivors):
+        return junk_sig
+    return SIG_MULTI
+
+
 def rx_class(item):
     ''' Class of the received bundle, from the received octets' description only (RFC 9171 terms). '''
     spec = item['spec']
@@ -401,16 +429,6 @@ def rx_class(item):
     prevs = [blk for blk in blocks if blk['type'] == 6]
     ages = [blk for blk in blocks if blk['type'] == 7]
 
-    def good_prev(blk):
-        one = _loads_one(bytes.fromhex(blk['data']))
-        try:
-            return one is not None and bg.eid_of_item(one[0]) is not None
-        except ValueError:
-            return False
-
-    def good_age(blk):
-        one = _loads_one(bytes.fromhex(blk['data']))
-        return one is not None and _uint(one[0])
     if any(not good_prev(blk) for blk in prevs):
         cls.add('prev-junk')
     if any(not good_age(blk) for blk in ages):
@@ -506,13 +524,8 @@ def oracle(case, idx, ent):
         except ValueError:
             named.append(None)
     if len(prevs) != 1:
-        pend = None
-        rx_prev = [blk for blk in spec['blocks'] if blk['type'] == 6]
-        if 'prev2' in cls and len(prevs) <= len(rx_prev):
-            pend = SIG_PREV2
-        elif 'prev-junk' in cls and len(rx_prev) == 1 and len(prevs) == 2:
-            pend = SIG_PREVJUNK
-        add('previous-node count', '%d Previous Node blocks transmitted (%r)' % (len(prevs), named), pend)
+        add('previous-node count', '%d Previous Node blocks transmitted (%r)' % (len(prevs), named),
+            survivors_signature([blk for blk in spec['blocks'] if blk['type'] == 6], prevs, good_prev, SIG_PREVJUNK))
     if named.count(node) != 1:
         add('previous-node value', 'Previous Node blocks name %r, this node is %s' % (named, node))
     # --- hop count
@@ -534,23 +547,19 @@ def oracle(case, idx, ent):
     # --- bundle age
     ages = [blk for blk in blocks if blk['type'] == 7]
     if len(ages) > 1:
-        pend = None
-        rx_age = [blk for blk in spec['blocks'] if blk['type'] == 7]
-        if 'age2' in cls and len(ages) <= len(rx_age):
-            pend = SIG_AGE2
-        elif 'age-junk' in cls and len(rx_age) == 1 and len(ages) == 2:
-            pend = SIG_AGEJUNK
-        add('bundle-age count', '%d Bundle Age blocks transmitted' % len(ages), pend)
+        add('bundle-age count', '%d Bundle Age blocks transmitted' % len(ages),
+            survivors_signature([blk for blk in spec['blocks'] if blk['type'] == 7], ages, good_age, SIG_AGEJUNK))
     if spec['time'] != 0:
         want = now - spec['time']
         vals = [(_loads_one(blk['data']) or [None])[0] for blk in ages]
         okay = [val for val in vals if _uint(val) and val == want]
         if len(okay) != 1:
-            pend = None
-            if 'future' in cls and vals and all((isinstance(val, int) and val < 0) or _uint(val) for val in vals):
+            if want < 0 and want in vals:
                 pend = SIG_AGENEG
-            elif len(ages) > 1 and ('age2' in cls or 'age-junk' in cls) and want in vals:
-                pend = None if len(okay) == 1 else (SIG_AGE2 if 'age2' in cls else SIG_AGEJUNK)
+            elif want in vals:
+                pend = survivors_signature([blk for blk in spec['blocks'] if blk['type'] == 7], ages, good_age, SIG_AGEJUNK)
+            else:
+                pend = None
             add('bundle-age value', 'now - creation = %d, Bundle Age blocks carry %r' % (want, vals), pend)
     # --- block numbers, payload position
     nums = [blk['num'] for blk in blocks]
